@@ -19,10 +19,39 @@ def main():
     expect_clean = "--expect-clean" in sys.argv
     with open(path) as f:
         program = json.load(f)
-    from sim import runner
+    from sim import runner, tape
 
     check = runner.load_check(program["property"])
+    # Prelude: some defects live in process-global state (module-level caches) and need the runs that
+    # the worker process executed BEFORE the failing one.  The prelude is an explicit list of seeds
+    # whose programs are regenerated and executed first, in order, in this fresh interpreter.
+    prelude = program.get("prelude")
+    cli_prelude = None
+    for i, a in enumerate(sys.argv):
+        if a == "--prelude" and i + 1 < len(sys.argv):
+            cli_prelude = {"seeds": [int(x) for x in sys.argv[i + 1].split(",") if x], "tier": "quick"}
+        if a == "--tier" and i + 1 < len(sys.argv) and cli_prelude is not None:
+            cli_prelude["tier"] = sys.argv[i + 1]
+    if cli_prelude is not None:
+        prelude = cli_prelude
+    if prelude:
+        for sd in prelude["seeds"]:
+            runner.run_program(check.generate(sd, prelude.get("tier", "quick")), check)
+        print("prelude: executed %d earlier runs of the same worker process first" % len(prelude["seeds"]))
     res = runner.run_program(program, check)
+    if cli_prelude is not None and "--write" in sys.argv:
+        want0 = (program.get("violation") or {}).get("signature")
+        got = [v for v in res.get("violations", []) if v["signature"] == want0]
+        if got:
+            program["prelude"] = cli_prelude
+            program["violation"]["event_digest"] = res.get("digest")
+            program["violation"]["detail"] = got[0]["detail"]
+            with open(path, "w") as f:
+                f.write(tape.jdump(program))
+            print("PRELUDE-WRITTEN %d seeds" % len(cli_prelude["seeds"]))
+            sys.exit(1)
+        print("PRELUDE-NOT-REPRODUCED")
+        sys.exit(2)
     if res.get("harness_error"):
         print("HARNESS-ERROR replay failed to execute:\n" + res["harness_error"])
         sys.exit(2)
